@@ -47,6 +47,10 @@ package blockstore
 //@   ensures twice_err [C04]: !b.opts.WriteAsCarV1 && !old(b.ronly.closed) && old(b.finalized) ==> err != nil && writes(b.f) == old(writes(b.f))
 
 //@ func (*ReadOnly).Has
+//@   let nf := call[errors.Is#0]
+//@   call[errors.Is#0] assert asks_whether_the_lookup_found_nothing [C04,C07]: arg0 == ferr && arg1 == index.ErrNotFound
+//@   ensures other_lookup_errors_are_reported [C04,C07]: executed("store.FindCid#0") && ferr != nil && !nf ==> err == ferr && !result0
+//@   ensures a_missing_key_is_not_an_error [C04,C07]: executed("store.FindCid#0") && nf ==> err == nil && !result0
 //@   requires unlocked [C08]: held(b.mu) == 0
 //@   let _, idok, iderr := call[store.IsIdentity#0]
 //@   let _, _, size, ferr := call[store.FindCid#0]
@@ -60,6 +64,10 @@ package blockstore
 //@   ensures released [C08]: held(b.mu) == 0
 
 //@ func (*ReadOnly).Get
+//@   let nf := call[errors.Is#0]
+//@   call[errors.Is#0] assert asks_whether_the_lookup_found_nothing [C04,C07]: arg0 == ferr && arg1 == index.ErrNotFound
+//@   ensures other_lookup_errors_are_reported [C04,C07]: executed("store.FindCid#0") && ferr != nil && !nf ==> err == ferr && result0 == nil
+//@   ensures a_missing_block_is_a_typed_not_found [C04,C07]: executed("store.FindCid#0") && nf ==> typeis(err, "github.com/ipfs/go-ipld-format.ErrNotFound") && result0 == nil
 //@   requires unlocked [C08]: held(b.mu) == 0
 //@   let _, idok, iderr := call[store.IsIdentity#0]
 //@   let data, _, _, ferr := call[store.FindCid#0]
@@ -73,6 +81,10 @@ package blockstore
 //@   ensures released [C08]: held(b.mu) == 0
 
 //@ func (*ReadOnly).GetSize
+//@   let nf := call[errors.Is#0]
+//@   call[errors.Is#0] assert asks_whether_the_lookup_found_nothing [C04,C07]: arg0 == ferr && arg1 == index.ErrNotFound
+//@   ensures other_lookup_errors_are_reported [C04,C07]: executed("store.FindCid#0") && ferr != nil && !nf ==> err == ferr && result0 == -1
+//@   ensures a_missing_block_is_a_typed_not_found [C04,C07]: executed("store.FindCid#0") && nf ==> typeis(err, "github.com/ipfs/go-ipld-format.ErrNotFound") && result0 == -1
 //@   requires unlocked [C08]: held(b.mu) == 0
 //@   let _, idok, iderr := call[store.IsIdentity#0]
 //@   let _, _, size, ferr := call[store.FindCid#0]
@@ -269,11 +281,14 @@ package blockstore
 //@   ensures store_over_that_file [C07]: err == nil ==> result0 == ro && rerr == nil
 
 //@ func generateIndex
+//@   call[io.NewOffsetReadSeeker#0] assert the_whole_source [C07]: ref(arg0) == ref(at) && arg1 == 0
+//@   call[car.GenerateIndex#0] assert a_reader_over_the_given_source [C07]: arg0 != nil && (implements(at, "io.ReadSeeker") ==> ref(arg0) == ref(at))
 //@   call[Seeker.Seek#0] assert rewinds [C07]: arg1 == 0 && arg2 == 0
 //@   call[car.GenerateIndex#0] assert from_the_start_with_the_same_options [C07]: arg1 == opts && pos(arg0) == sbase(arg0)
 
 //@ func readVersion
-//@   call[car.ReadVersion#0] assert same_options [C07]: arg1 == opts
+//@   call[io.NewOffsetReadSeeker#0] assert the_whole_source [C07]: ref(arg0) == ref(at) && arg1 == 0
+//@   call[car.ReadVersion#0] assert a_reader_over_the_given_source_and_the_same_options [C07]: arg1 == opts && arg0 != nil && (implements(at, "io.Reader") ==> ref(arg0) == ref(at))
 
 //@ func (*ReadWrite).Index
 //@   ensures def [C07]: ref(result) == ref(b.idx)
